@@ -5,6 +5,11 @@ import Sftp.Props.C02
 #print axioms Sftp.C02.no_waitgroup_panic
 #print axioms Sftp.C02.exactly_once_at_drain
 #print axioms Sftp.C02.no_stuck_state
+#print axioms Sftp.C02.every_request_answered
+#print axioms Sftp.C02.stopped_is_final
+#print axioms Sftp.C02.final_is_stopped
+#print axioms Sftp.C02.every_request_answered_at_end
+#print axioms Sftp.C02.drain_needed
 #print axioms Sftp.C02.head_match_needed
 #print axioms Sftp.C02.sort_needed
 #print axioms Sftp.C02.register_first_needed
